@@ -709,6 +709,10 @@ func (p *prop) Generate(rng *core.Rand, tier string, emit func(string)) {
 	case "search":
 		n = 20000
 	}
+	cfEvery, fsEvery := 6, 12
+	if tier == "thorough" {
+		cfEvery, fsEvery = 15, 30 // 8000 directives, 4000 file_server cases (each up to three real fetches)
+	}
 	for _, m := range malformed {
 		emit(m)
 	}
@@ -717,10 +721,10 @@ func (p *prop) Generate(rng *core.Rand, tier string, emit func(string)) {
 	g := &genCase{rng: rng.Fork().Fork(), tier: tier}
 	for i := 0; i < n; i++ {
 		emit(g.one())
-		if i%6 == 0 {
+		if i%cfEvery == 0 {
 			emit(g.cfCase())
 		}
-		if i%12 == 5 {
+		if i%fsEvery == 5 {
 			emit(g.fsCase())
 		}
 	}
